@@ -208,7 +208,7 @@ def _shard(seed, shard, bases, n):
         where = rng.choice(WHERES)
         layout = rng.choice(["single", "single", "project", "project_nonroot"])
         crlf = rng.random() < 0.1
-        if layout == "project_nonroot" and re.search(r"(?m)^\s*(let|func|module|type|import|prql|@|into)\b|\binto\b", base):
+        if layout == "project_nonroot" and re.search(r"(?m)^\s*(let|func|module|type|import|prql|@|into)\b|\binto\b|#!|\n[ \t]*\n\s*\S", base):
             layout = "project"
         src, token = INJECTIONS[inj](base)
         if layout == "project_nonroot":
@@ -249,10 +249,11 @@ def _shard(seed, shard, bases, n):
         if info["errors"]:
             obs["cells"].add((inj, pclass, layout))
         for (sym, det) in out:
-            shape = "%s/%s/%s/%s%s" % (inj, "ascii" if pclass == "ascii" else "multibyte", where if pclass != "ascii" else "-", layout, "/crlf" if crlf else "")
+            ascii_only = all(t.isascii() for _, t in sources)
+            shape = "%s/%s/%s/%s%s" % (inj, "ascii" if ascii_only else "multibyte", where if pclass != "ascii" else "-", layout, "/crlf" if crlf else "")
             key = (sym, shape)
             v = {"property": "C13", "symptom": sym, "shape": shape,
-                 "witness": {"sources": sources, "main_path": main_path, "target": target, "token": token, "crlf": crlf} if key not in seen else None,
+                 "witness": {"sources": sources, "main_path": main_path, "target": target, "token": token, "crlf": crlf, "shape": shape} if key not in seen else None,
                  "detail": det}
             seen.add(key)
             viols.append(v)
@@ -274,7 +275,7 @@ def run(tier, seed):
             bases.append(s)
     w.close()
     N = core.NCPU
-    n = 250 if tier == "quick" else 12000
+    n = 1200 if tier == "quick" else 20000
     res = core.run_shards(_shard, [dict(seed=seed, shard=i, bases=bases, n=n) for i in range(N)])
     obs = {"cells": set()}
     for v, o in res:
@@ -311,4 +312,4 @@ def replay(case):
     w = core.Worker()
     out, info, r = judge(w, [tuple(x) for x in case["sources"]], None, case.get("main_path", []), case.get("target"), case.get("token"), case.get("crlf", False))
     w.close()
-    return [{"property": "C13", "symptom": s, "shape": "", "witness": case, "detail": d} for s, d in out]
+    return [{"property": "C13", "symptom": s, "shape": case.get("shape", ""), "witness": case, "detail": d} for s, d in out]
